@@ -107,7 +107,10 @@ class AwaitCtl:
             return self.await_ext(I, aw)
         if isinstance(aw, SleepAwait):
             self.suspend(I, "sleep")
-            self.maybe_interrupted(I, "sleep")
+            try:
+                self.maybe_interrupted(I, "sleep")
+            except _Interrupt as it:
+                raise PyRaise(it.exc)
             ctx.emit("asyncio.sleep", None, (aw.delay,), {})
             _log(ctx, {"kind": "sleep", "outcome": "return"})
             return None
